@@ -196,6 +196,7 @@ def run(ctx, anchors=None):
                          "is_p2sh is defined as `%s` without %s: %s" % (" && ".join(cj)[:90], "the sigversion == BASE conjunct" if not has_base else "the SCRIPT_VERIFY_P2SH flag conjunct",
                                                                     "witness scripts of the shape HASH160 <20> EQUAL get a bogus redeem-script phase" if not has_base else "the redeem script is executed even when the P2SH flag is cleared"))
     ctx.floor("R03.5", ndef, 2, "definitions of is_p2sh")
+    c03_setup.check_p2sh_once(ctx, fb, prog)
     # ---- R03.6 agreement with the batch twin, on the accepting paths of both
     c03_setup.check_agreement(ctx, fb, prog)
     amt = [n for n in cf.nodes() if n["k"] == "assign" and "amounts[txin_index]" in _X(cf, n["lhs"])]
@@ -204,6 +205,7 @@ def run(ctx, anchors=None):
 
 
 MUTANTS = [
+    dict(name="p2sh-mark-survives-the-redeem-script", file="debugger/interpreter.cpp", find="            // Restore stack.\n            is_p2sh = false;\n", replace="            // Restore stack.\n", expect=["R03.5:p2sh-continuation-once"]),
     dict(name="commitment-skipped-for-empty-script", file="instance.cpp", find="    env->done &= successor_script.size() == 0 && !tce;\n", replace="    env->done &= successor_script.size() == 0;\n", expect=["R03.3:pending-commitment-not-done"]),
     dict(name="tce-over-wrong-script", file="instance.cpp", find="tce = new TaprootCommitmentEnv(control, program, scriptPubKey, &execdata.m_tapleaf_hash);", replace="tce = new TaprootCommitmentEnv(control, program, CScript(wstack.front().begin(), wstack.front().end()), &execdata.m_tapleaf_hash);", expect=["R03.3:v1-script-path-commitment"]),
     dict(name="tce-dropped", file="instance.cpp", find="                tce = new TaprootCommitmentEnv(control, program, scriptPubKey, &execdata.m_tapleaf_hash);\n", replace="", expect=["R03.3:v1-script-path-commitment"]),
